@@ -50,10 +50,12 @@ impl DefaultMetricLogReader {
             let mut line = String::new();
             let count = buf_reader.read_line(&mut line)?;
             if count == 0 {
+                // end of file: hand over what has been read so far
                 let should_continue = (prev_size + items.len()) < max_lines;
-                return Ok((Vec::new(), should_continue));
+                return Ok((items, should_continue));
             }
-            let item = base::MetricItem::from_string(&line);
+            // `read_line` keeps the line separator
+            let item = base::MetricItem::from_string(line.trim_end_matches(|c| c == '\n' || c == '\r'));
 
             match item {
                 Ok(item) => {
